@@ -1,0 +1,38 @@
+//go:build verif
+
+package fsm
+
+import (
+	"github.com/canopy-network/canopy/lib"
+	"github.com/canopy-network/canopy/lib/crypto"
+)
+
+// Verification hooks (build tag `verif` only; add-only, nothing here is compiled into normal builds).
+
+// VerifCheckTx runs the real CheckTx and exposes what it resolved: the decoded message (with the special fields populated
+// from the verified signer), the verified sender and the fee.
+func (s *StateMachine) VerifCheckTx(transaction []byte) (msg lib.MessageI, sender crypto.AddressI, fee uint64, err lib.ErrorI) {
+	res, err := s.CheckTx(transaction, crypto.HashString(transaction), nil)
+	if err != nil {
+		return nil, nil, 0, err
+	}
+	return res.msg, res.sender, res.tx.Fee, nil
+}
+
+// VerifSideState reports the sizes of the per-FSM side state that must be rolled back by hand after a failed transaction.
+func (s *StateMachine) VerifSideState() (cachedAccounts, cachedPools int, feeParamsCached, valParamsCached bool, trackedSlashes int, pendingEvents int) {
+	n := 0
+	if s.slashTracker != nil {
+		for _, m := range *s.slashTracker {
+			n += len(m)
+		}
+	}
+	ev := 0
+	if s.events != nil {
+		ev = len(s.events.Events)
+	}
+	return len(s.cache.accounts), len(s.cache.pools), s.cache.feeParams != nil, s.cache.valParams != nil, n, ev
+}
+
+// VerifSetHeight sets the height of the state machine (test scenarios at chosen heights).
+func (s *StateMachine) VerifSetHeight(h uint64) { s.height = h }
